@@ -19,7 +19,7 @@ from .. import order as OR
 
 EXPLANATION = __doc__
 M = "text::cmap::"
-KW = ["begincodespacerange", "endcodespacerange", "beginbfchar", "endbfchar", "begincmap", "endcmap"]
+KW = ["begincodespacerange", "endcodespacerange", "beginbfchar", "endbfchar"]
 
 
 def strings_in(facts, fid):
@@ -45,6 +45,11 @@ def strings_in(facts, fid):
             for p in s["tpl"]:
                 if isinstance(p, str):
                     out.add(p)
+        h = facts.hirfns.get(f.id)
+        if h is not None:
+            from .. import bytepred as BP
+            for l in BP.find_all(h["body"], lambda y: y[0] == "lit" and isinstance(y[1], dict) and "s" in y[1]):
+                out.add(l[1]["s"])
     return out
 
 
